@@ -131,7 +131,7 @@ func solveObligation1(o *Obligation, dir string, timeoutS int, needAgree int, wh
 	decided := func(r *SolveResult) bool {
 		return r.Result == "unsat" || r.Result == "sat" || r.Result == "disagree"
 	}
-	short := timeoutS / 4
+	short := timeoutS / 8
 	if short < 3 {
 		short = 3
 	}
